@@ -1002,13 +1002,13 @@ Definition prefix_of (pre : str) (comp : component) : Prop := pre = comp_prefix 
 
 Lemma parse_rgb_fn_rgb pre comp body : prefix_of pre comp ->
   parse_rgb_string (pre ++ S_ "rgb(" ++ body) = parse_body true comp body.
-Proof. intros [-> | [-> ->]]; [destruct comp|]; reflexivity. Qed.
+Proof. intros [-> | [-> ->]]; [destruct comp|]; destruct body; reflexivity. Qed.
 Lemma parse_rgb_fn_color pre comp body : prefix_of pre comp ->
   parse_rgb_string (pre ++ S_ "color256(" ++ body) = parse_body false comp body.
-Proof. intros [-> | [-> ->]]; [destruct comp|]; reflexivity. Qed.
+Proof. intros [-> | [-> ->]]; [destruct comp|]; destruct body; reflexivity. Qed.
 Lemma parse_rgb_fn_colour pre comp body : prefix_of pre comp ->
   parse_rgb_string (pre ++ S_ "colour256(" ++ body) = parse_body false comp body.
-Proof. intros [-> | [-> ->]]; [destruct comp|]; reflexivity. Qed.
+Proof. intros [-> | [-> ->]]; [destruct comp|]; destruct body; reflexivity. Qed.
 
 (* --- layouts --- *)
 Definition COMMA : char := 44%N.
@@ -1112,14 +1112,740 @@ Section Layout1.
   Proof.
     unfold parse_body, layout1.
     rewrite open_bracket_app by assumption.
-    destruct (close_first cb Hcb) as (d & Y & E & Hd & Hds & Hd44).
-    rewrite E. rewrite (read_tok_sp sp0 t sp1 d Y) by auto. cbv beta iota zeta.
-    rewrite (skip_space_app sp1 d Y) by auto. rewrite <- E. rewrite close_ok_layout by assumption.
-    assert (Hm : forall (A : Type) (x y : str -> A) (z : A),
-               match d :: Y with 44%N :: r3 => x r3 | _ => z end = z).
-    { intros A x y z. apply N.eqb_neq in Hd44. destruct d as [|p]; [reflexivity|].
-      repeat (destruct p as [p|p|]; try reflexivity). exfalso. now apply Hd44. }
+    assert (Hc : close_ok (sp1 ++ cb ++ [RPAR]) = true) by now apply close_ok_layout.
+    assert (Hcases : exists d Y, cb ++ [RPAR] = d :: Y /\ (d = 41%N \/ d = 93%N)).
+    { destruct cb as [|c [|c' cb']]; cbn [close_br] in Hcb; try discriminate; cbn [app].
+      - exists RPAR, []. auto.
+      - exists c, [RPAR]. apply orb_true_iff in Hcb as [E|E]; apply N.eqb_eq in E; auto. }
+    destruct Hcases as (d & Y & E & Hd). rewrite E in *.
+    assert (Hdd : delim d = true /\ is_re_space d = false) by (destruct Hd as [-> | ->]; split; reflexivity).
+    destruct Hdd as [Hd1 Hd2].
+    rewrite (read_tok_sp sp0 t sp1 d Y) by auto. cbv beta iota zeta.
+    rewrite (skip_space_app sp1 d Y) by auto. rewrite Hc.
     destruct is_rgb; [|reflexivity].
-    rewrite Hm by exact (fun _ => 0%N :: nil). reflexivity.
+    destruct Hd as [-> | ->]; reflexivity.
   Qed.
 End Layout1.
+
+(* C14-rgb-layout: every layout the pattern admits - optional opening '[' '(' ')' and closing ')' ']',
+   blanks around the numbers, decimal or 0x-hex numbers - gives the builder's result; hex digits
+   without 0x are rejected (RBad, ValueError in Python) *)
+Theorem parse_rgb_layout3 pre comp ob sp0 sp1 sp2 sp3 sp4 sp5 cb t1 t2 t3 :
+  prefix_of pre comp -> open_br ob = true -> close_br cb = true ->
+  spaces sp0 = true -> spaces sp1 = true -> spaces sp2 = true ->
+  spaces sp3 = true -> spaces sp4 = true -> spaces sp5 = true ->
+  tok_wf t1 = true -> tok_wf t2 = true -> tok_wf t3 = true ->
+  parse_rgb_string (pre ++ S_ "rgb(" ++ layout3 ob sp0 sp1 sp2 sp3 sp4 sp5 cb t1 t2 t3) =
+  match tok_val t1, tok_val t2, tok_val t3 with
+  | Some a, Some b, Some c => RTexts (rgb3 a b c comp)
+  | _, _, _ => RBad
+  end.
+Proof. intros. rewrite (parse_rgb_fn_rgb pre comp) by assumption. now apply parse_body_layout3. Qed.
+
+Theorem parse_rgb_layout1 pre comp ob sp0 sp1 cb t :
+  prefix_of pre comp -> open_br ob = true -> close_br cb = true ->
+  spaces sp0 = true -> spaces sp1 = true -> tok_wf t = true ->
+  parse_rgb_string (pre ++ S_ "rgb(" ++ layout1 ob sp0 sp1 cb t) =
+  match tok_val t with Some v => RTexts (rgb1 v comp) | None => RBad end.
+Proof. intros. rewrite (parse_rgb_fn_rgb pre comp) by assumption. now apply parse_body_layout1. Qed.
+
+Theorem parse_color256_layout pre comp (british : bool) ob sp0 sp1 cb t :
+  prefix_of pre comp -> open_br ob = true -> close_br cb = true ->
+  spaces sp0 = true -> spaces sp1 = true -> tok_wf t = true ->
+  parse_rgb_string (pre ++ (if british then S_ "colour256(" else S_ "color256(") ++ layout1 ob sp0 sp1 cb t) =
+  match tok_val t with Some v => RTexts (color256 v comp) | None => RBad end.
+Proof.
+  intros. destruct british; [rewrite (parse_rgb_fn_colour pre comp) | rewrite (parse_rgb_fn_color pre comp)]; try assumption;
+    now apply parse_body_layout1.
+Qed.
+
+Example parse_rgb_layout3_ex :
+  let s := S_ "bg_" ++ S_ "rgb(" ++ layout3 (S_ "[") (S_ " ") (S_ "") (S_ "  ") (S_ " ") (S_ "") (S_ " ") (S_ "]")
+                                         (NHex (S_ "1f")) (NDec (S_ "007")) (NDec (S_ "300")) in
+  s = S_ "bg_rgb([ 0x1f,  007 ,300 ])" /\ parse_rgb_string s = RTexts [S_ "48;2;31;7;255"].
+Proof. cbv zeta. split; vm_compute; reflexivity. Qed.
+Example parse_rgb_badhex_ex :
+  tok_wf (NBadHex (S_ "ff")) = true /\
+  parse_rgb_string (S_ "rgb(" ++ layout1 [] [] [] [] (NBadHex (S_ "ff"))) = RBad /\
+  S_ "rgb(" ++ layout1 [] [] [] [] (NBadHex (S_ "ff")) = S_ "rgb(ff)".
+Proof. repeat split; vm_compute; reflexivity. Qed.
+
+(* --- canonical printers --- *)
+Definition print_rgb (pre : str) (r g b : Z) : str :=
+  pre ++ S_ "rgb(" ++ dec r ++ COMMA :: dec g ++ COMMA :: dec b ++ [RPAR].
+Definition print_rgb24 (pre : str) (v : Z) : str := pre ++ S_ "rgb(" ++ dec v ++ [RPAR].
+Definition print_color256 (pre : str) (british : bool) (v : Z) : str :=
+  pre ++ (if british then S_ "colour256(" else S_ "color256(") ++ dec v ++ [RPAR].
+
+Example print_ex : print_rgb (comp_prefix BG) 1 2 3 = S_ "bg_rgb(1,2,3)" /\ print_rgb24 [] 1056816 = S_ "rgb(1056816)"
+  /\ print_color256 (comp_prefix DUL) true 7 = S_ "dul_colour256(7)".
+Proof. repeat split; vm_compute; reflexivity. Qed.
+
+Lemma dval_dec z : 0 <= z -> Z.of_N (dval (dec z) 0) = z.
+Proof. intros H. destruct z as [|p|p]; [reflexivity| |lia]. cbn [dec]. now rewrite decN_val. Qed.
+Lemma tok_wf_dec z : 0 <= z -> tok_wf (NDec (dec z)) = true.
+Proof.
+  intros H. cbn [tok_wf]. rewrite (dec_nonneg_digits z H), andb_true_r.
+  pose proof (dec_not_nil z). destruct (dec z); [congruence | reflexivity].
+Qed.
+Lemma tok_val_dec z : 0 <= z -> tok_val (NDec (dec z)) = Some z.
+Proof. intros H. cbn [tok_val]. now rewrite dval_dec. Qed.
+
+Theorem parse_print_rgb pre comp r g b : prefix_of pre comp -> 0 <= r -> 0 <= g -> 0 <= b ->
+  parse_rgb_string (print_rgb pre r g b) = RTexts (rgb3 r g b comp).
+Proof.
+  intros Hp Hr Hg Hb.
+  change (print_rgb pre r g b) with
+    (pre ++ S_ "rgb(" ++ layout3 [] [] [] [] [] [] [] [] (NDec (dec r)) (NDec (dec g)) (NDec (dec b))).
+  rewrite (parse_rgb_layout3 pre comp) by (auto using tok_wf_dec).
+  now rewrite !tok_val_dec.
+Qed.
+
+Theorem parse_print_rgb24 pre comp v : prefix_of pre comp -> 0 <= v ->
+  parse_rgb_string (print_rgb24 pre v) = RTexts (rgb1 v comp).
+Proof.
+  intros Hp Hv.
+  change (print_rgb24 pre v) with (pre ++ S_ "rgb(" ++ layout1 [] [] [] [] (NDec (dec v))).
+  rewrite (parse_rgb_layout1 pre comp) by (auto using tok_wf_dec). now rewrite tok_val_dec.
+Qed.
+
+Theorem parse_print_color256 pre comp british v : prefix_of pre comp -> 0 <= v ->
+  parse_rgb_string (print_color256 pre british v) = RTexts (color256 v comp).
+Proof.
+  intros Hp Hv.
+  change (print_color256 pre british v) with
+    (pre ++ (if british then S_ "colour256(" else S_ "color256(") ++ layout1 [] [] [] [] (NDec (dec v))).
+  rewrite (parse_color256_layout pre comp) by (auto using tok_wf_dec). now rewrite tok_val_dec.
+Qed.
+
+(* --- from parse_rgb_string to scrub --- *)
+Lemma group_ints_sets ts : group_ints (map SSet ts) [] = OK ts.
+Proof.
+  induction ts as [|t ts IH]; [reflexivity|]. cbn [map group_ints is_nil bind]. rewrite IH. reflexivity.
+Qed.
+
+Lemma starts_with_in (p s : str) c : starts_with s p = true -> In c p -> In c s.
+Proof.
+  revert s. induction p as [|y p IH]; intros s H Hin; [destruct Hin|].
+  destruct s as [|x s]; [discriminate|]. cbn [starts_with] in H. apply andb_true_iff in H as [Hx Hs].
+  apply N.eqb_eq in Hx. subst y. destruct Hin as [->|Hin]; [now left | right; now apply IH].
+Qed.
+
+Lemma in_skipn {A} n (l : list A) x : In x (skipn n l) -> In x l.
+Proof. intros H. rewrite <- (firstn_skipn n l). apply in_or_app. now right. Qed.
+
+Lemma strip_prefix_in p s r c : strip_prefix p s = Some r -> In c r -> In c s.
+Proof. unfold strip_prefix. destruct (starts_with s p); [|discriminate]. intros [= <-]. apply in_skipn. Qed.
+Lemma strip_prefix_in_p p s r c : strip_prefix p s = Some r -> In c p -> In c s.
+Proof. unfold strip_prefix. destruct (starts_with s p) eqn:E; [|discriminate]. intros _. now apply starts_with_in. Qed.
+
+Lemma read_component_in s comp r0 c : read_component s = (comp, r0) -> In c r0 -> In c s.
+Proof.
+  unfold read_component.
+  destruct (strip_prefix [102; 103; 95]%N s) eqn:E1; [intros [= _ <-]; now apply (strip_prefix_in _ _ _ _ E1)|].
+  destruct (strip_prefix [98; 103; 95]%N s) eqn:E2; [intros [= _ <-]; now apply (strip_prefix_in _ _ _ _ E2)|].
+  destruct (strip_prefix [117; 108; 95]%N s) eqn:E3; [intros [= _ <-]; now apply (strip_prefix_in _ _ _ _ E3)|].
+  destruct (strip_prefix [100; 117; 108; 95]%N s) eqn:E4; [intros [= _ <-]; now apply (strip_prefix_in _ _ _ _ E4)|].
+  now intros [= _ <-].
+Qed.
+
+(* a string without '(' is never an rgb()/color256() string *)
+Theorem parse_rgb_needs_paren s : ~ In 40%N s -> parse_rgb_string s = RNoMatch.
+Proof.
+  intros Hn. unfold parse_rgb_string. destruct (read_component s) as [comp r0] eqn:Ec.
+  assert (Hr0 : ~ In 40%N r0) by (intros H; apply Hn; now apply (read_component_in s comp r0)).
+  assert (Hsp : forall p, In 40%N p -> strip_prefix p r0 = None).
+  { intros p Hp. destruct (strip_prefix p r0) eqn:E; [|reflexivity]. exfalso. apply Hr0.
+    now apply (strip_prefix_in_p p r0 s0). }
+  rewrite !Hsp; [reflexivity| | |]; cbn; tauto.
+Qed.
+
+Lemma paren_not_member s : In 40%N s -> member_texts (norm_name s) = None.
+Proof. intros H. now apply (not_member_char 40%N s H). Qed.
+
+(* C14-rgb-string: whatever parse_rgb_string builds is what the scrubber returns *)
+Theorem scrub_rgb_string s ts : part_ok s -> parse_rgb_string s = RTexts ts -> scrub (FStr s) = OK ts.
+Proof.
+  intros Hp Hr. rewrite scrub_directive by exact Hp. unfold scrub_name1.
+  assert (Hin : In 40%N s).
+  { destruct (in_dec N.eq_dec 40%N s) as [H|H]; [exact H|]. rewrite (parse_rgb_needs_paren s H) in Hr. discriminate. }
+  rewrite (paren_not_member s Hin), Hr. cbn [bind]. apply group_ints_sets.
+Qed.
+
+Theorem scrub_rgb_string_bad s : part_ok s -> parse_rgb_string s = RBad -> scrub (FStr s) = Err ValueError.
+Proof.
+  intros Hp Hr. apply scrub_bad_rgb; auto.
+  destruct (in_dec N.eq_dec 40%N s) as [H|H]; [now apply paren_not_member|].
+  rewrite (parse_rgb_needs_paren s H) in Hr. discriminate.
+Qed.
+
+(* part_ok of the canonical printers *)
+Definition no_semi (s : str) : bool := forallb (fun c => negb (c =? SEMI)%N) s.
+Lemma no_semi_mem s : no_semi s = true -> mem_char SEMI s = false.
+Proof.
+  unfold no_semi, mem_char. induction s as [|c s IH]; cbn [forallb existsb]; [reflexivity|].
+  intros H. apply andb_true_iff in H as [Hc Hs]. rewrite (IH Hs), orb_false_r. apply negb_true_iff in Hc.
+  now rewrite N.eqb_sym.
+Qed.
+Lemma no_semi_app a b : no_semi (a ++ b) = no_semi a && no_semi b.
+Proof. apply forallb_app. Qed.
+Lemma no_semi_dec z : no_semi (dec z) = true.
+Proof.
+  pose proof (dec_no_semi z) as H. unfold no_semi, mem_char in *. induction (dec z) as [|c s IH]; [reflexivity|].
+  cbn [forallb existsb] in *. apply orb_false_iff in H as [Hc Hs]. rewrite (IH Hs), andb_true_r.
+  apply negb_true_iff. now rewrite N.eqb_sym.
+Qed.
+Lemma prefix_no_semi pre comp : prefix_of pre comp -> no_semi pre = true.
+Proof. intros [-> | [-> _]]; [destruct comp|]; reflexivity. Qed.
+Lemma prefix_first pre comp (c : char) (Y : str) : prefix_of pre comp -> (c =? LBR)%N = false ->
+  starts_with (pre ++ c :: Y) [LBR] = false.
+Proof.
+  intros [-> | [-> _]] Hc; [destruct comp; reflexivity|]. cbn [app starts_with]. now rewrite Hc.
+Qed.
+
+Lemma part_ok_print_rgb pre comp r g b : prefix_of pre comp -> part_ok (print_rgb pre r g b).
+Proof.
+  intros Hp. split.
+  - apply no_semi_mem. unfold print_rgb. rewrite !no_semi_app, (prefix_no_semi pre comp Hp).
+    change (COMMA :: dec g ++ COMMA :: dec b ++ [RPAR]) with ([COMMA] ++ dec g ++ [COMMA] ++ dec b ++ [RPAR]).
+    rewrite !no_semi_app, !no_semi_dec. reflexivity.
+  - unfold print_rgb. now apply (prefix_first pre comp).
+Qed.
+Lemma part_ok_print_rgb24 pre comp v : prefix_of pre comp -> part_ok (print_rgb24 pre v).
+Proof.
+  intros Hp. split.
+  - apply no_semi_mem. unfold print_rgb24. rewrite !no_semi_app, (prefix_no_semi pre comp Hp), no_semi_dec. reflexivity.
+  - unfold print_rgb24. now apply (prefix_first pre comp).
+Qed.
+Lemma part_ok_print_color256 pre comp british v : prefix_of pre comp -> part_ok (print_color256 pre british v).
+Proof.
+  intros Hp. split.
+  - apply no_semi_mem. unfold print_color256. rewrite !no_semi_app, (prefix_no_semi pre comp Hp), no_semi_dec.
+    destruct british; reflexivity.
+  - unfold print_color256. destruct british; now apply (prefix_first pre comp).
+Qed.
+
+(* C14-rgb: the string spelling of rgb()/color256() scrubs to what the builder returns *)
+Theorem scrub_print_rgb pre comp r g b : prefix_of pre comp -> 0 <= r -> 0 <= g -> 0 <= b ->
+  scrub (FStr (print_rgb pre r g b)) = OK (rgb3 r g b comp).
+Proof.
+  intros Hp Hr Hg Hb. apply scrub_rgb_string; [now apply (part_ok_print_rgb pre comp) | now apply parse_print_rgb].
+Qed.
+Theorem scrub_print_rgb24 pre comp v : prefix_of pre comp -> 0 <= v ->
+  scrub (FStr (print_rgb24 pre v)) = OK (rgb1 v comp).
+Proof.
+  intros Hp Hv. apply scrub_rgb_string; [now apply (part_ok_print_rgb24 pre comp) | now apply parse_print_rgb24].
+Qed.
+Theorem scrub_print_color256 pre comp british v : prefix_of pre comp -> 0 <= v ->
+  scrub (FStr (print_color256 pre british v)) = OK (color256 v comp).
+Proof.
+  intros Hp Hv. apply scrub_rgb_string; [now apply (part_ok_print_color256 pre comp) | now apply parse_print_color256].
+Qed.
+
+Example scrub_print_ex :
+  prefix_of (S_ "ul_") UL /\ prefix_of [] FG /\
+  scrub (FStr (S_ "ul_rgb(1,2,300)")) = OK (rgb3 1 2 300 UL) /\ print_rgb (S_ "ul_") 1 2 300 = S_ "ul_rgb(1,2,300)"
+  /\ scrub (FStr (S_ "rgb(1056816)")) = OK [S_ "38;2;16;32;48"]
+  /\ scrub (FStr (S_ "colour256(700)")) = OK [S_ "38;5;700"].
+Proof. split; [now left|]. split; [now right|]. repeat split; vm_compute; reflexivity. Qed.
+
+(* the same setting, three spellings: builder call, string, integers *)
+Corollary rgb_three_spellings r g b : 0 <= r <= 255 -> 0 <= g <= 255 -> 0 <= b <= 255 ->
+  scrub (FStr (print_rgb (S_ "bg_") r g b)) = OK (rgb3 r g b BG) /\
+  scrub (FList (map FInt [48; 2; r; g; b])) = OK (rgb3 r g b BG) /\
+  scrub (FStr (text_of_items [48; 2; r; g; b])) = OK (rgb3 r g b BG).
+Proof.
+  intros Hr Hg Hb.
+  assert (Hcg : colour_group [48; 2; r; g; b]).
+  { right. exists 48, r, g, b. unfold introducer. repeat split; auto; lia. }
+  assert (E : rgb3 r g b BG = [text_of_items [48; 2; r; g; b]]).
+  { rewrite rgb3_in_range by assumption. reflexivity. }
+  split; [apply scrub_print_rgb; [now left| lia..] |]. rewrite E. split.
+  - now apply scrub_colour_group_ints.
+  - now apply scrub_colour_group_string.
+Qed.
+
+(* ====================================================================================== *)
+(* 6. Validity of what the scrubber returns                                                *)
+(* ====================================================================================== *)
+Definition clean (it : sitem) : Prop := match it with SSet t => valid t = true | SInt z => 0 <= z end.
+
+Lemma nonneg_as_N l : Forall (fun z => 0 <= z) l -> l = map Z.of_N (map Z.to_N l).
+Proof. induction 1 as [|z l Hz _ IH]; [reflexivity|]. cbn [map]. rewrite Z2N.id by exact Hz. now f_equal. Qed.
+
+Lemma forallb_valid_textN gs : forallb valid (map textN gs) = true.
+Proof. induction gs as [|g gs IH]; [reflexivity|]. cbn [map forallb]. now rewrite valid_textN, IH. Qed.
+
+Lemma flush_valid cur r : Forall (fun z => 0 <= z) cur -> flush cur = OK r -> forallb valid r = true.
+Proof.
+  intros Hc. unfold flush. destruct cur as [|z cur']; cbn [is_nil]; [intros [= <-]; reflexivity|].
+  rewrite (nonneg_as_N _ Hc). set (cs := map Z.to_N (z :: cur')).
+  assert (Hne : cs <> []) by (unfold cs; discriminate).
+  destruct (C18_erroneous_main cs Hne) as (gs & H1 & _ & _).
+  unfold pgs_codes in H1. rewrite <- (map_map Z.of_N IInt) in H1. rewrite H1. intros [= <-].
+  apply forallb_valid_textN.
+Qed.
+
+Lemma group_ints_valid items : Forall clean items -> forall cur r,
+  Forall (fun z => 0 <= z) cur -> group_ints items cur = OK r -> forallb valid r = true.
+Proof.
+  induction 1 as [|it items Hit _ IH]; intros cur r Hc; cbn [group_ints].
+  - apply flush_valid. exact Hc.
+  - destruct it as [t|z]; cbn [clean] in Hit.
+    + fold (flush cur). destruct (flush cur) as [a|e] eqn:Ef; cbn [bind]; [|discriminate].
+      destruct (group_ints items []) as [b|e] eqn:Eg; cbn [bind]; [|discriminate].
+      intros [= <-]. rewrite forallb_app. cbn [forallb].
+      rewrite (flush_valid cur a Hc Ef), Hit, (IH [] b (Forall_nil _) Eg). reflexivity.
+    + apply IH. apply Forall_app. split; [exact Hc | repeat constructor; exact Hit].
+Qed.
+
+(* sources of settings: members, builders, rgb strings *)
+Lemma member_texts_valid n ts : member_texts n = Some ts -> forallb valid ts = true.
+Proof.
+  intros H. pose proof (member_in_names n ts H) as Hin.
+  pose proof (In_names_forallb _ n members_valid_parsable Hin) as Hv. cbv beta in Hv. rewrite H in Hv.
+  clear -Hv. induction ts as [|t ts IH]; [reflexivity|]. cbn [forallb] in *.
+  apply andb_true_iff in Hv as [Ht Hts]. apply andb_true_iff in Ht as [Ht _]. now rewrite Ht, IH.
+Qed.
+
+Lemma valid_text_nonneg l : Forall (fun z => 0 <= z) l -> valid (text_of_items l) = true.
+Proof. intros H. rewrite (nonneg_as_N l H). apply valid_textN. Qed.
+
+Lemma color_texts_valid comp tail : Forall (fun z => 0 <= z) tail -> forallb valid (color_texts comp tail) = true.
+Proof.
+  intros H. assert (Hv : forall v, 0 <= v -> valid (text_of_items (v :: tail)) = true)
+    by (intros v Hv; apply valid_text_nonneg; now constructor).
+  destruct comp; cbn [color_texts forallb]; rewrite Hv by lia; reflexivity.
+Qed.
+
+Theorem rgb3_valid r g b comp : forallb valid (rgb3 r g b comp) = true.
+Proof.
+  apply color_texts_valid. pose proof (clamp255_range r). pose proof (clamp255_range g). pose proof (clamp255_range b).
+  repeat constructor; lia.
+Qed.
+Theorem rgb1_valid v comp : forallb valid (rgb1 v comp) = true.
+Proof.
+  rewrite rgb1_split. apply color_texts_valid.
+  pose proof (Z.mod_pos_bound (v / 65536) 256). pose proof (Z.mod_pos_bound (v / 256) 256).
+  pose proof (Z.mod_pos_bound v 256). repeat constructor; lia.
+Qed.
+Theorem color256_valid v comp : 0 <= v -> forallb valid (color256 v comp) = true.
+Proof. intros H. apply color_texts_valid. repeat constructor; lia. Qed.
+(* rgb() results are moreover parsable (FlagsProofs.rgb3_valid_parsable); color256(v) is for v <= 255 *)
+Example color256_not_parsable : forallb parsable (color256 700 FG) = false /\ forallb valid (color256 700 FG) = true.
+Proof. split; vm_compute; reflexivity. Qed.
+(* a negative argument of the color256() BUILDER gives an invalid-looking but "valid" text; the
+   string form cannot express it *)
+Example color256_negative : color256 (-1) FG = [S_ "38;5;-1"] /\ forallb valid (color256 (-1) FG) = true.
+Proof. split; vm_compute; reflexivity. Qed.
+
+Lemma read_plain_nonneg s v r : read_plain s = Some (Some v, r) -> 0 <= v.
+Proof.
+  unfold read_plain. destruct (span_hex s) as [d r']. destruct (is_nil d); [discriminate|].
+  destruct (forallb is_digit d); [|discriminate]. intros [= <- _]. lia.
+Qed.
+
+Lemma read_num_nonneg s v r : read_num s = Some (Some v, r) -> 0 <= v.
+Proof.
+  assert (Hdec : {r' | s = (48 :: 120 :: r')%N} + {forall r', s <> (48 :: 120 :: r')%N}).
+  { destruct s as [|a [|b r']]; [right; discriminate | right; discriminate |].
+    destruct (N.eq_dec a 48) as [->|Ha]; [|right; intros r'' [= ? ? ?]; congruence].
+    destruct (N.eq_dec b 120) as [->|Hb]; [left; now exists r' | right; intros r'' [= ? ?]; congruence]. }
+  destruct Hdec as [[r' ->] | Hn].
+  - rewrite read_num_0x. destruct (span_hex r') as [d r'']. destruct (is_nil d).
+    + apply read_plain_nonneg.
+    + intros [= <- _]. lia.
+  - rewrite (read_num_plain s Hn). apply read_plain_nonneg.
+Qed.
+
+Lemma parse_rgb_is_body s : parse_rgb_string s = RNoMatch \/
+  exists is_rgb comp r1, parse_rgb_string s = parse_body is_rgb comp r1.
+Proof.
+  unfold parse_rgb_string. destruct (read_component s) as [comp r0].
+  destruct (strip_prefix [114; 103; 98; 40]%N r0) as [r1|]; [right; exists true, comp, r1; reflexivity|].
+  destruct (strip_prefix [99; 111; 108; 111; 114; 50; 53; 54; 40]%N r0) as [r1|]; [right; exists false, comp, r1; reflexivity|].
+  destruct (strip_prefix [99; 111; 108; 111; 117; 114; 50; 53; 54; 40]%N r0) as [r1|]; [right; exists false, comp, r1; reflexivity|].
+  now left.
+Qed.
+
+Lemma parse_body_valid is_rgb comp r1 ts : parse_body is_rgb comp r1 = RTexts ts -> forallb valid ts = true.
+Proof.
+  unfold parse_body. destruct (read_num (skip_space (open_bracket r1))) as [[v1 r2]|] eqn:E1; [|discriminate].
+  cbv zeta.
+  match goal with |- match ?three with _ => _ end = _ -> _ => destruct three as [[[[a|] [b|]] [c|]]|] end;
+    try discriminate.
+  - intros [= <-]. apply rgb3_valid.
+  - destruct (close_ok r2); [|discriminate]. destruct v1 as [v|]; [|discriminate].
+    intros [= <-]. apply read_num_nonneg in E1. destruct is_rgb; [apply rgb1_valid | now apply color256_valid].
+Qed.
+
+(* whatever an rgb()/color256() string produces is valid *)
+Theorem parse_rgb_valid s ts : parse_rgb_string s = RTexts ts -> forallb valid ts = true.
+Proof.
+  destruct (parse_rgb_is_body s) as [-> | (is_rgb & comp & r1 & ->)]; [discriminate|]. apply parse_body_valid.
+Qed.
+
+Lemma clean_sets ts : forallb valid ts = true -> Forall clean (map SSet ts).
+Proof.
+  induction ts as [|t ts IH]; cbn [forallb map]; [constructor|]. intros H. apply andb_true_iff in H as [Ht Hts].
+  constructor; auto.
+Qed.
+
+Lemma scrub_name1_clean f items : scrub_name1 f = OK items -> Forall clean items.
+Proof.
+  unfold scrub_name1. destruct (member_texts (norm_name f)) as [ts|] eqn:Em.
+  - intros [= <-]. apply clean_sets. now apply (member_texts_valid _ _ Em).
+  - destruct (parse_rgb_string f) as [| |ts] eqn:Er; [|discriminate|].
+    + destruct (is_nil f); [intros [= <-]; constructor|].
+      destruct (parse_int f) as [z|]; [|discriminate]. unfold scrub_int.
+      destruct (z <? 0) eqn:Ez; cbn [bind]; [discriminate|]. intros [= <-]. apply Z.ltb_ge in Ez. repeat constructor. exact Ez.
+    + intros [= <-]. apply clean_sets. now apply (parse_rgb_valid f).
+Qed.
+
+Lemma scrub_names_clean l items : scrub_names l = OK items -> Forall clean items.
+Proof.
+  revert items. induction l as [|f r IH]; intros items; [intros [= <-]; constructor|].
+  rewrite scrub_names_cons. destruct (scrub_name1 f) as [a|e] eqn:E1; cbn [bind]; [|discriminate].
+  destruct (scrub_names r) as [b|e] eqn:E2; cbn [bind]; [|discriminate]. intros [= <-].
+  apply Forall_app. split; [now apply (scrub_name1_clean f) | now apply IH].
+Qed.
+
+(* forms that carry no verbatim invalid text: AnsiSetting objects and "[..." strings are the only
+   way to hand text to the scrubber unchecked *)
+Fixpoint no_raw_invalid (f : form) : bool :=
+  match f with
+  | FSetting t => valid t
+  | FStr s => match s with c :: t => if (c =? LBR)%N then valid t else true | [] => true end
+  | FList l => forallb no_raw_invalid l
+  | _ => true
+  end.
+
+Lemma scrub_form_clean f : no_raw_invalid f = true -> forall items, scrub_form f = OK items -> Forall clean items.
+Proof.
+  induction f as [f Hf | l IH] using form_ind'.
+  - destruct f as [n|s|z|t|l| |b]; try discriminate; cbn [no_raw_invalid scrub_form]; intros Hv items.
+    + destruct (member_texts n) as [ts|] eqn:Em; [|discriminate]. intros [= <-].
+      apply clean_sets. now apply (member_texts_valid _ _ Em).
+    + destruct s as [|c t]; [intros [= <-]; constructor|].
+      destruct (c =? LBR)%N eqn:Ec.
+      * apply N.eqb_eq in Ec. subst c. unfold scrub_string, LBR. destruct (is_nil t); [discriminate|].
+        intros [= <-]. repeat constructor. exact Hv.
+      * rewrite (scrub_string_nobr c t Ec). apply scrub_names_clean.
+    + unfold scrub_int. destruct (z <? 0) eqn:Ez; cbn [bind]; [discriminate|]. intros [= <-].
+      apply Z.ltb_ge in Ez. repeat constructor. exact Ez.
+    + intros [= <-]. repeat constructor. exact Hv.
+  - cbn [no_raw_invalid]. intros Hv items. rewrite scrub_form_list. revert Hv items.
+    induction IH as [|x r Hx _ IHr]; cbn [forallb scrub_list]; intros Hv items; [intros [= <-]; constructor|].
+    apply andb_true_iff in Hv as [Hvx Hvr].
+    destruct (scrub_form x) as [a|e] eqn:Ex; cbn [bind]; [|discriminate].
+    destruct (scrub_list r) as [b|e] eqn:Er; cbn [bind]; [|discriminate]. intros [= <-].
+    apply Forall_app. split; [now apply Hx | now apply IHr].
+Qed.
+
+(* C14-valid: every setting the scrubber returns is valid text unless invalid text was handed in
+   verbatim (as an AnsiSetting object or a "[..." string) *)
+Theorem scrub_valid f r : no_raw_invalid f = true -> scrub f = OK r -> forallb valid r = true.
+Proof.
+  intros Hv. unfold scrub.
+  assert (Hv' : no_raw_invalid (match f with FList _ => f | _ => FList [f] end) = true).
+  { destruct f; cbn [no_raw_invalid forallb] in *; rewrite ?andb_true_r; auto. }
+  destruct (scrub_form _) as [items|e] eqn:E; cbn [bind]; [|discriminate].
+  apply (group_ints_valid items (scrub_form_clean _ Hv' items E) [] r). constructor.
+Qed.
+
+Example scrub_valid_ex :
+  no_raw_invalid (FList [FMember (S_ "BOLD"); FStr (S_ "bg_rgb(1,2,3);red"); FInt 38; FList [FInt 5; FInt 700]]) = true /\
+  scrub (FList [FMember (S_ "BOLD"); FStr (S_ "bg_rgb(1,2,3);red"); FInt 38; FList [FInt 5; FInt 700]])
+  = OK [S_ "1"; S_ "48;2;1;2;3"; S_ "31"; S_ "38;5;700"].
+Proof. split; vm_compute; reflexivity. Qed.
+(* the hypothesis is needed *)
+Example scrub_invalid_verbatim :
+  scrub (FStr (S_ "[1m")) = OK [S_ "1m"] /\ valid (S_ "1m") = false /\
+  scrub (FSetting (S_ "x")) = OK [S_ "x"] /\ valid (S_ "x") = false.
+Proof. repeat split; vm_compute; reflexivity. Qed.
+
+(* special cases asked for: members, known codes, helper results *)
+Corollary scrub_member_valid n r : scrub (FMember n) = OK r -> forallb valid r = true.
+Proof. now apply scrub_valid. Qed.
+Corollary scrub_member_value n ts : member_texts n = Some ts -> scrub (FMember n) = OK ts.
+Proof.
+  intros H. rewrite scrub_single by reflexivity. cbn [scrub_form]. rewrite H. cbn [bind]. apply group_ints_sets.
+Qed.
+Corollary scrub_ints_valid g r : scrub (FList (map FInt g)) = OK r -> forallb valid r = true.
+Proof.
+  apply scrub_valid. cbn [no_raw_invalid]. induction g; cbn [map forallb]; auto.
+Qed.
+(* all members: valid and parsable, by computation over the generated table *)
+Theorem scrub_all_members_valid_parsable :
+  forallb (fun n => match scrub (FMember n) with
+                    | OK ts => negb (is_nil ts) && forallb (fun t => valid t && parsable t) ts
+                    | Err _ => false end) names = true.
+Proof. vm_compute. reflexivity. Qed.
+
+(* ====================================================================================== *)
+(* 7. Spellings are interchangeable in any context                                         *)
+(* ====================================================================================== *)
+(* leaves that contribute the same items may be exchanged anywhere in a (nested) list *)
+Theorem scrub_ext l1 l2 :
+  Forall2 (fun a b => scrub_form a = scrub_form b) l1 l2 -> scrub (FList l1) = scrub (FList l2).
+Proof. intros H. unfold scrub. rewrite !scrub_form_list, (scrub_list_ext l1 l2 H). reflexivity. Qed.
+
+(* item-level versions of the spelling theorems, for use with scrub_ext / scrub_join *)
+Lemma names_part_ok name : In name names -> forall spelling, norm_name spelling = name -> part_ok spelling.
+Proof.
+  intros Hin spelling Hn.
+  pose proof (In_names_forallb _ name names_no_sep Hin) as Hsep. apply negb_true_iff in Hsep.
+  pose proof (In_names_forallb _ name names_no_bracket Hin) as Hbr. cbv beta in Hsep, Hbr.
+  split.
+  - rewrite <- mem_semi_norm, Hn. exact Hsep.
+  - destruct spelling as [|c r]; [reflexivity|]. cbn [norm_name map] in Hn. subst name.
+    apply negb_true_iff in Hbr. rewrite norm_char_lbr in Hbr. cbn [starts_with]. now rewrite Hbr.
+Qed.
+
+Theorem scrub_form_name_spelling name spelling : In name names -> norm_name spelling = name ->
+  scrub_form (FStr spelling) = scrub_form (FMember name).
+Proof.
+  intros Hin Hn. rewrite (scrub_form_str_part spelling (names_part_ok name Hin spelling Hn)).
+  unfold scrub_name1. rewrite Hn. cbn [scrub_form].
+  pose proof (In_names_forallb _ name names_resolve Hin) as Hres. cbv beta in Hres.
+  destruct (member_texts name); [reflexivity | discriminate].
+Qed.
+
+Theorem scrub_form_rgb_string s ts : part_ok s -> parse_rgb_string s = RTexts ts ->
+  scrub_form (FStr s) = OK (map SSet ts).
+Proof.
+  intros Hp Hr. rewrite (scrub_form_str_part s Hp). unfold scrub_name1.
+  assert (Hin : In 40%N s).
+  { destruct (in_dec N.eq_dec 40%N s) as [H|H]; [exact H|]. rewrite (parse_rgb_needs_paren s H) in Hr. discriminate. }
+  now rewrite (paren_not_member s Hin), Hr.
+Qed.
+
+(* C14 capstone example: one formatting, five spellings, mixed into nested lists and ';'-strings *)
+Example spellings_agree :
+  let r := OK [S_ "1"; S_ "31"; S_ "48;2;1;2;3"; S_ "38;5;7"] in
+  scrub (FList [FMember (S_ "BOLD"); FMember (S_ "FG_RED"); FList [FInt 48; FInt 2; FInt 1; FInt 2; FInt 3]; FStr (S_ "38;5;7")]) = r /\
+  scrub (FStr (S_ "bold;fg red;bg_rgb(1,2,3);38;5;7")) = r /\
+  scrub (FList [FStr (S_ "Bold"); FList [FStr (S_ "fg-red"); FStr (S_ "bg_rgb( 0x1, 2, 3 )")]; FInt 38; FList [FInt 5; FStr (S_ "7")]]) = r /\
+  scrub (FList [FInt 1; FInt 31; FStr (S_ "[48;2;1;2;3"); FSetting (S_ "38;5;7")]) = r.
+Proof. cbv zeta. repeat split; vm_compute; reflexivity. Qed.
+
+(* the integer spelling of an rgb group is NOT clamped, the rgb() spellings are: the spellings agree
+   only for components in 0..255 (same in Python: "bg_rgb(1,0,300)" -> 48;2;1;0;255, [48,2,1,0,300] -> 48;2;1;0;300) *)
+Example rgb_spellings_differ_out_of_range :
+  scrub (FStr (S_ "bg_rgb(1,0,300)")) = OK [S_ "48;2;1;0;255"] /\
+  scrub (FList (map FInt [48; 2; 1; 0; 300])) = OK [S_ "48;2;1;0;300"].
+Proof. split; vm_compute; reflexivity. Qed.
+
+(* ---------- further witnesses for the hypotheses used above ---------- *)
+Example scrub_wrap_ex : is_list (FInt 5) = false /\ scrub (FInt 5) = scrub (FList [FInt 5]).
+Proof. split; reflexivity. Qed.
+Example scrub_first_error_ex :
+  let f := FList [FInt 1; FList [FMember (S_ "BOLD"); FOther true]; FSelfRef] in
+  flatten f = [FInt 1; FMember (S_ "BOLD")] ++ FOther true :: [FSelfRef] /\
+  Forall (fun y => exists r, scrub_form y = OK r) [FInt 1; FMember (S_ "BOLD")] /\
+  scrub f = Err TypeError.
+Proof.
+  cbv zeta. split; [reflexivity|]. split; [|vm_compute; reflexivity].
+  repeat constructor; eexists; vm_compute; reflexivity.
+Qed.
+Example scrub_selfref_ex :
+  let f := FList [FInt 1; FList [FSelfRef; FOther true]] in
+  flatten f = [FInt 1] ++ FSelfRef :: [FOther true] /\
+  Forall (fun y => exists r, scrub_form y = OK r) [FInt 1] /\ scrub f = Err ValueError.
+Proof.
+  cbv zeta. split; [reflexivity|]. split; [|vm_compute; reflexivity].
+  repeat constructor; eexists; vm_compute; reflexivity.
+Qed.
+Example scrub_ints_ex :
+  [1; 38; 5; 7; 0] <> [] /\ Forall (fun z => 0 <= z) [1; 38; 5; 7; 0] /\
+  scrub (FList (map FInt [1; 38; 5; 7; 0])) = OK [S_ "1"; S_ "38;5;7"; S_ "0"] /\
+  scrub (FStr (text_of_items [1; 38; 5; 7; 0])) = OK [S_ "1"; S_ "38;5;7"; S_ "0"].
+Proof. split; [discriminate|]. split; [repeat constructor; lia|]. split; vm_compute; reflexivity. Qed.
+Example scrub_join_error_ex :
+  let parts := [S_ "bold"; S_ "boldd"; S_ "zzz"] in
+  Forall part_ok parts /\ parts = [S_ "bold"] ++ S_ "boldd" :: [S_ "zzz"] /\
+  Forall (fun q => exists r, scrub_name1 q = OK r) [S_ "bold"] /\ scrub_name1 (S_ "boldd") = Err ValueError /\
+  scrub (FStr (S_ "bold;boldd;zzz")) = Err ValueError.
+Proof.
+  cbv zeta. split; [repeat constructor|]. split; [reflexivity|]. split; [|split; vm_compute; reflexivity].
+  repeat constructor. eexists. vm_compute. reflexivity.
+Qed.
+Example rgb1_24bit_ex : 0 <= 1056816 < 16777216 /\ rgb1 1056816 BG = rgb3 16 32 48 BG.
+Proof. split; [lia | vm_compute; reflexivity]. Qed.
+Example rgb1_pack_ex : rgb1 (16 * 65536 + 32 * 256 + 48) BG = rgb3 16 32 48 BG.
+Proof. apply rgb1_pack; lia. Qed.
+Example layout_hyps_ex :
+  open_br (S_ "[") = true /\ close_br (S_ "]") = true /\ spaces (S_ "  ") = true /\
+  tok_wf (NHex (S_ "1f")) = true /\ tok_wf (NDec (S_ "007")) = true /\ tok_val (NHex (S_ "1f")) = Some 31.
+Proof. repeat split; vm_compute; reflexivity. Qed.
+Example scrub_rgb_string_ex :
+  let s := S_ "bg_rgb([ 0x1f,  007 ,300 ])" in
+  part_ok s /\ parse_rgb_string s = RTexts [S_ "48;2;31;7;255"] /\ scrub (FStr s) = OK [S_ "48;2;31;7;255"].
+Proof. cbv zeta. repeat split; vm_compute; reflexivity. Qed.
+Example scrub_form_name_spelling_ex :
+  In (S_ "FG_RED") names /\ norm_name (S_ "fg-Red") = S_ "FG_RED" /\
+  scrub (FList [FInt 1; FStr (S_ "fg-Red")]) = scrub (FList [FInt 1; FMember (S_ "FG_RED")]).
+Proof.
+  split; [|split; [vm_compute; reflexivity|]].
+  - assert (H : existsb (str_eqb (S_ "FG_RED")) names = true) by (vm_compute; reflexivity).
+    apply existsb_exists in H as (x & Hx & E). apply str_eqb_eq in E. now subst.
+  - vm_compute. reflexivity.
+Qed.
+Example scrub_codes_all_kept_ex :
+  scrub (FList (map (fun c => FInt (Z.of_N c)) [38; 5; 7; 38; 9]%N)) = OK (map textN [[38; 5; 7]; [38]; [9]]%N).
+Proof. vm_compute. reflexivity. Qed.
+
+(* ====================================================================================== *)
+(* 8. Unknown names, without reference to the parsers                                      *)
+(* ====================================================================================== *)
+(* characters that can occur in a Python int() literal of our fragment *)
+Definition int_char (x : char) : bool :=
+  (is_digit x || (x =? CH_US) || (x =? CH_MINUS) || (x =? CH_PLUS))%N || is_ws x.
+
+Lemma lstrip_keeps (s : str) x : In x s -> is_ws x = false -> In x (lstrip_ws s).
+Proof.
+  induction s as [|c s IH]; [intros []|]. intros Hin Hx. cbn [lstrip_ws].
+  destruct (is_ws c) eqn:Ec; [|exact Hin].
+  destruct Hin as [->|Hin]; [congruence | now apply IH].
+Qed.
+Lemma strip_keeps (s : str) x : In x s -> is_ws x = false -> In x (strip_ws s).
+Proof.
+  intros Hin Hx. unfold strip_ws. apply in_rev. rewrite rev_involutive.
+  apply lstrip_keeps; [|exact Hx]. apply -> in_rev. now apply lstrip_keeps.
+Qed.
+
+Lemma digits_val_chars s : forall acc prev n, digits_val s acc prev = Some n ->
+  forall x, In x s -> is_digit x = true \/ x = CH_US.
+Proof.
+  induction s as [|c r IH]; intros acc prev n H x Hin; [destruct Hin|].
+  cbn [digits_val] in H. destruct (is_digit c) eqn:Ed.
+  - destruct Hin as [<-|Hin]; [now left | now apply (IH _ _ _ H)].
+  - destruct (c =? CH_US)%N eqn:Eu; [|discriminate]. apply N.eqb_eq in Eu.
+    destruct prev; [|discriminate]. destruct r as [|c' r']; [discriminate|].
+    destruct Hin as [<-|Hin]; [now right | now apply (IH _ _ _ H)].
+Qed.
+
+Theorem parse_int_chars s z : parse_int s = Some z -> forall x, In x s -> int_char x = true.
+Proof.
+  intros H x Hin. unfold int_char. destruct (is_ws x) eqn:Ews; [now rewrite orb_true_r|]. rewrite orb_false_r.
+  pose proof (strip_keeps s x Hin Ews) as Hx. unfold parse_int in H.
+  destruct (strip_ws s) as [|c r]; [discriminate|].
+  assert (Hd : forall l acc prev n, digits_val l acc prev = Some n -> In x l ->
+               (is_digit x || (x =? CH_US) || (x =? CH_MINUS) || (x =? CH_PLUS))%N = true).
+  { intros l acc prev n Hl Hinl. destruct (digits_val_chars l acc prev n Hl x Hinl) as [E | ->].
+    - now rewrite E.
+    - rewrite orb_true_iff. left. rewrite orb_true_iff. left. rewrite orb_true_iff. now right. }
+  destruct (c =? CH_MINUS)%N eqn:Em.
+  - apply N.eqb_eq in Em. destruct Hx as [<-|Hx].
+    + subst c. rewrite orb_true_iff. left. rewrite orb_true_iff. now right.
+    + destruct (digits_val r 0%N false) as [n|] eqn:E; [|discriminate]. now apply (Hd r _ _ n E).
+  - destruct (c =? CH_PLUS)%N eqn:Ep.
+    + apply N.eqb_eq in Ep. destruct Hx as [<-|Hx].
+      * subst c. now rewrite orb_true_r.
+      * destruct (digits_val r 0%N false) as [n|] eqn:E; [|discriminate]. now apply (Hd r _ _ n E).
+    + destruct (digits_val (c :: r) 0%N false) as [n|] eqn:E; [|discriminate]. now apply (Hd (c :: r) _ _ n E).
+Qed.
+
+Corollary parse_int_none s x : In x s -> int_char x = false -> parse_int s = None.
+Proof.
+  intros Hin Hx. destruct (parse_int s) as [z|] eqn:E; [|reflexivity].
+  rewrite (parse_int_chars s z E x Hin) in Hx. discriminate.
+Qed.
+
+(* C14-reject: a directive that is not a member name after normalisation, contains no '(' and
+   contains a character that cannot occur in an integer (e.g. any letter) is rejected *)
+Theorem scrub_unknown_word s x : part_ok s -> ~ In 40%N s -> In x s -> int_char x = false ->
+  ~ In (norm_name s) names -> scrub (FStr s) = Err ValueError.
+Proof.
+  intros Hp Hparen Hin Hx Hnm. apply scrub_unknown_name; auto.
+  - intros ->. destruct Hin.
+  - destruct (member_texts (norm_name s)) as [ts|] eqn:E; [|reflexivity]. exfalso. apply Hnm.
+    now apply (member_in_names _ ts).
+  - now apply parse_rgb_needs_paren.
+  - now apply (parse_int_none s x).
+Qed.
+
+Example scrub_unknown_word_ex :
+  let s := S_ "fg_redd" in
+  part_ok s /\ ~ In 40%N s /\ In 102%N s /\ int_char 102%N = false /\ ~ In (norm_name s) names /\
+  scrub (FStr s) = Err ValueError.
+Proof.
+  cbv zeta. split; [split; vm_compute; reflexivity|]. split.
+  { intros H. assert (E : existsb (N.eqb 40%N) (S_ "fg_redd") = true) by (apply existsb_exists; exists 40%N; split; [exact H | reflexivity]).
+    vm_compute in E. discriminate. }
+  split; [vm_compute; tauto|]. split; [reflexivity|]. split; [|vm_compute; reflexivity].
+  intros H. assert (E : existsb (str_eqb (norm_name (S_ "fg_redd"))) names = true).
+  { apply existsb_exists. eexists. split; [exact H|]. apply str_eqb_refl. }
+  vm_compute in E. discriminate.
+Qed.
+
+(* a directive is accepted exactly when it is a member name, an rgb()/color256() string with
+   convertible numbers, empty, or a non-negative integer *)
+Theorem scrub_directive_ok_iff s : part_ok s ->
+  ((exists r, scrub (FStr s) = OK r) <->
+   (exists ts, member_texts (norm_name s) = Some ts) \/
+   (member_texts (norm_name s) = None /\
+    ((exists ts, parse_rgb_string s = RTexts ts) \/
+     (parse_rgb_string s = RNoMatch /\ (s = [] \/ exists z, parse_int s = Some z /\ 0 <= z))))).
+Proof.
+  intros Hp. rewrite scrub_directive by exact Hp. unfold scrub_name1. split.
+  - intros [r H]. destruct (member_texts (norm_name s)) as [ts|]; [left; eauto|]. right. split; [reflexivity|].
+    destruct (parse_rgb_string s) as [| |ts]; [|discriminate|left; eauto]. right. split; [reflexivity|].
+    destruct s as [|c s']; [now left|]. right. cbn [is_nil] in H.
+    destruct (parse_int (c :: s')) as [z|]; [|discriminate]. exists z. split; [reflexivity|].
+    unfold scrub_int in H. destruct (z <? 0) eqn:Ez; [discriminate|]. now apply Z.ltb_ge in Ez.
+  - intros [[ts ->] | [-> [[ts ->] | [-> [-> | (z & -> & Hz)]]]]]; cbn [bind is_nil].
+    + rewrite group_ints_sets. eexists; reflexivity.
+    + rewrite group_ints_sets. eexists; reflexivity.
+    + eexists; reflexivity.
+    + unfold scrub_int. apply Z.ltb_ge in Hz. rewrite Hz. cbn [bind].
+      destruct s; cbn [is_nil bind]; [eexists; reflexivity|]. apply group_ints_ok.
+Qed.
+
+(* ====================================================================================== *)
+Print Assumptions scrub_flatten.
+Print Assumptions scrub_flatten_any.
+Print Assumptions scrub_nested_example.
+Print Assumptions scrub_same_leaves.
+Print Assumptions scrub_error_iff.
+Print Assumptions scrub_first_error.
+Print Assumptions scrub_type_error_iff.
+Print Assumptions scrub_join.
+Print Assumptions scrub_join_error.
+Print Assumptions scrub_int_nonneg.
+Print Assumptions scrub_int_neg.
+Print Assumptions scrub_str_dec.
+Print Assumptions scrub_verbatim.
+Print Assumptions scrub_ints.
+Print Assumptions scrub_ints_string.
+Print Assumptions scrub_colour_group_ints.
+Print Assumptions scrub_colour_group_string.
+Print Assumptions scrub_colour_group_nested.
+Print Assumptions scrub_codes_all_kept.
+Print Assumptions scrub_member_unknown.
+Print Assumptions scrub_unknown_name.
+Print Assumptions scrub_bad_rgb.
+Print Assumptions scrub_negative_text.
+Print Assumptions rgb1_split.
+Print Assumptions rgb1_24bit.
+Print Assumptions rgb1_pack.
+Print Assumptions parse_rgb_layout3.
+Print Assumptions parse_rgb_layout1.
+Print Assumptions parse_color256_layout.
+Print Assumptions parse_print_rgb.
+Print Assumptions parse_print_rgb24.
+Print Assumptions parse_print_color256.
+Print Assumptions parse_rgb_needs_paren.
+Print Assumptions scrub_rgb_string.
+Print Assumptions scrub_print_rgb.
+Print Assumptions scrub_print_rgb24.
+Print Assumptions scrub_print_color256.
+Print Assumptions rgb_three_spellings.
+Print Assumptions parse_rgb_valid.
+Print Assumptions scrub_valid.
+Print Assumptions scrub_all_members_valid_parsable.
+Print Assumptions scrub_ext.
+Print Assumptions scrub_form_name_spelling.
+Print Assumptions parse_int_chars.
+Print Assumptions scrub_unknown_word.
+Print Assumptions scrub_directive_ok_iff.
